@@ -7,6 +7,13 @@ pub fn run(a: &Args) -> i32 {
     let mut db = Db::create(&scratch.dir("db")).expect("create");
     for s in &a.rest {
         println!("> {}", s);
+        if s == "--reopen" {
+            let path = db.path.clone();
+            let _ = db.db.close();
+            drop(db);
+            db = Db::open(&path).expect("reopen");
+            continue;
+        }
         match db.exec(s) {
             Ok(o) => println!("  {:?}", o),
             Err(e) => println!("  ERR {}", e),
